@@ -3,6 +3,7 @@ import logging
 from antlr4 import Parser, DFA
 from antlr4.atn.ATNConfigSet import ATNConfigSet
 from antlr4.error.ErrorListener import ErrorListener
+from antlr4.error.ErrorStrategy import DefaultErrorStrategy
 
 
 class CMakeSyntaxError(SyntaxError):
@@ -127,3 +128,16 @@ class LexerErrorListener(ParserErrorListener):
         because the parser pulling the tokens would catch it and try to recover from it.
         """
         super().syntaxError(recognizer, offendingSymbol, line, column, msg, None)
+
+
+class ParserErrorStrategy(DefaultErrorStrategy):
+    """
+    Error strategy that never resynchronizes the parser after a syntax error.
+    :class:`ParserErrorListener` raises the offending RecognitionException, but every
+    enclosing parser rule catches that exception type again and, already being in error
+    recovery mode, silently skips tokens until it can continue. Re-raising from
+    :meth:`recover` lets the exception leave the parser instead.
+    """
+
+    def recover(self, recognizer, e):
+        raise e
